@@ -1,5 +1,7 @@
 SPECIFICATION Spec
 CONSTANTS
+  Rivals2 = {""}
+  SharedTmp = FALSE
   Rivals = {""}
   Chunks = {0, 1, 3}
   Pres = {"none", "intact_old", "corrupt_old", "dir", "nodir"}
